@@ -25,12 +25,12 @@ type val struct {
 	MK []string // map keys (sorted), values in L
 }
 
-func vs(s string) val   { return val{K: 's', S: s} }
-func vi(i int64) val    { return val{K: 'i', I: i} }
-func vf(f float64) val  { return val{K: 'f', F: f} }
-func vb(b []byte) val   { return val{K: 'b', By: b} }
-func vB(b bool) val     { return val{K: 'B', Bo: b} }
-func vl(l ...val) val   { return val{K: 'l', L: l} }
+func vs(s string) val  { return val{K: 's', S: s} }
+func vi(i int64) val   { return val{K: 'i', I: i} }
+func vf(f float64) val { return val{K: 'f', F: f} }
+func vb(b []byte) val  { return val{K: 'b', By: b} }
+func vB(b bool) val    { return val{K: 'B', Bo: b} }
+func vl(l ...val) val  { return val{K: 'l', L: l} }
 func vsl(l ...string) val {
 	out := make([]val, len(l))
 	for i, s := range l {
